@@ -248,3 +248,64 @@ def FreshInv (st : FS) : Prop :=
 
 end Feat
 end TM
+
+namespace TM
+namespace Feat
+
+/-! ### construction: `Machine.add_states` → `_create_state(**definition)` → `Error.__init__` → `Tags.__init__`
+
+`Error.__init__` does `tags = kwargs.get('tags', []); if accepted: tags.append('accepted'); kwargs['tags'] = tags`
+and `Tags.__init__` keeps `self.tags = kwargs.pop('tags', [])`: when the caller passed a list object, that
+very object is appended to and kept — it is not copied.  So list objects are modelled as references into a
+heap of the caller's lists. -/
+
+/-- a state definition as the caller writes it -/
+structure SDef where
+  name : Nat
+  tagsRef : Option Nat := none   -- which list object is passed as `tags=` (`none`: keyword absent)
+  accepted : Bool := false       -- `accepted=True` (valid with Error only)
+  hook : Nat := 0
+  retries : Nat := 0
+  deriving Repr, DecidableEq
+
+def hset (h : Nat → List Nat) (r : Nat) (v : List Nat) : Nat → List Nat := fun x => if x = r then v else h x
+
+/-- the caller's list objects after all states have been constructed, in definition order -/
+def initHeap : List SDef → (Nat → List Nat) → (Nat → List Nat)
+  | [], h => h
+  | d :: r, h =>
+    match d.tagsRef with
+    | some ref => initHeap r (if d.accepted then hset h ref (h ref ++ [0]) else h)
+    | none => initHeap r h
+
+/-- `state.tags` once the machine is built -/
+def builtTags (defs : List SDef) (heap : Nat → List Nat) (d : SDef) : List Nat :=
+  match d.tagsRef with
+  | some ref => initHeap defs heap ref
+  | none => if d.accepted then [0] else []
+
+/-- the tags the definition gives the state -/
+def givenTags (heap : Nat → List Nat) (d : SDef) : List Nat :=
+  match d.tagsRef with
+  | some ref => heap ref
+  | none => []
+
+/-- post-construction feature arguments (what `Cfg.args` holds) -/
+def builtArgs (defs : List SDef) (heap : Nat → List Nat) (s : Nat) : SArgs :=
+  match defs.find? (fun d => d.name = s) with
+  | some d => { tags := builtTags defs heap d, accepted := false, hook := d.hook, retries := d.retries }
+  | none => {}
+
+/-- C19's tag clause on the built machine, full strength: every state answers `is_<t>` True exactly for
+the tags its definition gives it (+ 'accepted' when it is declared accepted). -/
+def TagsExact (defs : List SDef) (heap : Nat → List Nat) : Prop :=
+  ∀ d ∈ defs, ∀ t, t ∈ builtTags defs heap d ↔ (t ∈ givenTags heap d ∨ (t = 0 ∧ d.accepted = true))
+
+/-- exclusion of the known finding: no state shares its `tags=` list object with a state declared
+accepted unless it is declared accepted itself -/
+def NoSharedAccepted (defs : List SDef) : Prop :=
+  ∀ d ∈ defs, ∀ d' ∈ defs, d.tagsRef.isSome = true → d.tagsRef = d'.tagsRef → d'.accepted = true →
+    d.accepted = true
+
+end Feat
+end TM
